@@ -22,7 +22,7 @@ NA = {
 CHECKS = {
  "C10": dict(
    level="exploration",
-   text="Definition-level fault injection against a fault-free reference run: 1..3 faults per run from cooperative fault points in the compiler (verif::buggify at the per-definition generator fold of both backends and at the validator fold), replacement of type assignments by parseable but unsupported definitions (REAL, VideotexString, inverted range, MACRO), and one module of several that does not lex. Oracles: accounting (every assignment is represented by the items attributed to it in the fault-free run, or matched to a new warning - named, or unnamed via bipartite matching); locality (every item of a definition that does not depend on a faulted one is token-identical to the fault-free run; for buggify faults nothing but the faulted definition is exempt); Err when any source fails to lex; normal return and renderable warnings. Both backends, random RasnConfig.",
+   text="Definition-level fault injection against a fault-free reference run: 1..3 faults per run from cooperative fault points in the compiler (verif::buggify at the per-definition generator fold of both backends and at the validator fold), replacement of type assignments by parseable but unsupported definitions (REAL, VideotexString, inverted range, MACRO), and one module of several that does not lex. Oracles: accounting (every assignment is represented by the items attributed to it in the fault-free run, or matched to a new warning - named, or unnamed via bipartite matching); locality (every item of a definition that does not depend on a faulted one is token-identical to the fault-free run; for buggify faults nothing but the faulted definition is exempt); Err when any source fails to lex; normal return and renderable warnings. Both backends, random RasnConfig. The fault-free run itself is checked for completeness (leaving a definition out must remove an item). A second scenario (xmod-name) re-observes known finding F1 with rename-apart classification.",
    note="Attribution of items to definitions is learned by leave-one-out compilation in the reference child; definitions with empty attribution are not judged. Sampling, not proof.",
    technique="deterministic simulation with fault injection: buggify-style cooperative fault points at definition granularity plus input-level definition faults; accounting/locality oracles against a fault-free reference",
    design="§4 C10"),
@@ -46,7 +46,7 @@ CHECKS = {
    design="§4 C08"),
  "C11": dict(
    level="exploration",
-   text="Deterministic simulation of 1..16 caller threads under a seeded baton scheduler (random, PCT and run-to-completion strategies; yield points at every intercepted libc call and at the verif-hooks points inside lexing, linking, validation and per-definition generation), each thread with a history of compilations over generated module sets, their siblings (same names, different bodies/defaults) and corpus files, in random arrangements (assignment permutation, module order, regrouping into sources), with seeded HashSet keys (getrandom seam) and benign read faults. Oracle: every result is byte-identical (text and warning multiset) to a canonical-order single-threaded compilation in a pristine process of its own.",
+   text="Deterministic simulation of 1..16 caller threads under a seeded baton scheduler (random, PCT and run-to-completion strategies; yield points at every intercepted libc call and at the verif-hooks points inside lexing, linking, validation and per-definition generation), each thread with a history of compilations over generated module sets, their siblings (same names, different bodies/defaults) and corpus files, in random arrangements (assignment permutation, module order, regrouping into sources), with seeded HashSet keys (getrandom seam) and benign read faults; multi-file sets of real-world modules with disjoint names in permuted source order; every module permutation of small sets; reused scratch file paths with new content. A watchdog passes the baton on when its holder blocks on a lock another sim thread holds. Scenario xmod-name re-observes known finding F1. Oracle: every result is byte-identical (text and warning multiset) to a canonical-order single-threaded compilation in a pristine process of its own.",
    note="Sampling, not proof. Interleaving granularity is hook points and system calls. Multi-file corpus sets are not combined (finding F1).",
    technique="deterministic simulation: seeded thread schedules (baton scheduler over real OS threads), process histories, permuted delivery, seeded hash keys; differential against a pristine reference process",
    design="§4 C11"),
